@@ -125,6 +125,26 @@ theorem sleep_preserves (zero : V) (td : TreeDofs n nv) (inp : SleepIn n) (s s' 
     (hc : Cyc s.ta) (h : sleep zero td inp s = (s', k, none)) : Cyc s'.ta :=
   sleep_cyc zero td inp s s' k hc h
 
+/-- The countdown sweep of `mj_sleep`: sleeping entries are untouched; an awake entry in `[kAwake, -1]` stays in
+    that range — it moves one step towards ‑1 ("ready") when the tree can sleep and is reset to `kAwake`
+    otherwise (so the unbounded-`Int` model never leaves the range of a C `int`). -/
+theorem countdown_spec (can : Vector Bool n) (ta : TA n) (j : Fin n) :
+    (0 ≤ ta[j] → (countdown can ta)[j] = ta[j]) ∧
+    (ta[j] < 0 → can[j] = false → (countdown can ta)[j] = kAwake) ∧
+    (ta[j] < -1 → can[j] = true → (countdown can ta)[j] = ta[j] + 1) ∧
+    (ta[j] = -1 → can[j] = true → (countdown can ta)[j] = -1) ∧
+    (kAwake ≤ ta[j] → ta[j] < 0 → kAwake ≤ (countdown can ta)[j] ∧ (countdown can ta)[j] ≤ -1) := by
+  rw [countdown_get]
+  unfold kAwake minAwake
+  refine ⟨fun h => by rw [if_pos h], fun h hc => ?_, fun h hc => ?_, fun h hc => ?_, fun h1 h2 => ?_⟩
+  · rw [if_neg (by omega), hc]; simp
+  · rw [if_neg (by omega), hc]; simp; omega
+  · rw [if_neg (by omega), hc]; simp; omega
+  · rw [if_neg (by omega)]
+    split
+    · split <;> omega
+    · omega
+
 /-! ## mj_wakeIsland -/
 
 /-- `mj_wakeIsland` preserves `Cyc` for every index (valid or not) and every negative wake value. -/
